@@ -12,6 +12,13 @@ from . import xl, xlerrors, xlcriteria, func_xltypes
 rand = np.random.rand
 
 
+def _finite(result):
+    """Excel reports #NUM! for a result beyond the floating point range."""
+    if np.isinf(result):
+        raise xlerrors.NumExcelError('result too large')
+    return result
+
+
 @xl.register()
 @xl.validate_args
 def ABS(
@@ -200,7 +207,7 @@ def COSH(
     https://support.office.com/en-us/article/
         cosh-function-e460d426-c471-43e8-9540-a57ff3b70555
     """
-    return np.cosh(float(number))
+    return _finite(np.cosh(float(number)))
 
 
 @xl.register()
@@ -213,7 +220,7 @@ def DEGREES(
     https://support.office.com/en-us/article/
         degrees-function-4d6ec4db-e694-4b94-ace0-1cc3f61f9ba1
     """
-    return np.degrees(float(angle))
+    return _finite(np.degrees(float(angle)))
 
 
 @xl.register()
@@ -246,7 +253,7 @@ def EXP(
     https://support.office.com/en-us/article/
         exp-function-c578f034-2c45-4c37-bc8c-329660a63abe
     """
-    return np.exp(float(number))
+    return _finite(np.exp(float(number)))
 
 
 @xl.register()
